@@ -33,7 +33,7 @@ def main():
     wt = "--wt" in args
     if wt:
         args.remove("--wt")
-    seed_dir, seed_id, prop = args[0], args[1], args[2]
+    seed_dir, seed_id, prop = os.path.abspath(args[0]), args[1], args[2]
     global REPO
     if wt:
         # same protocol in a throw-away worktree of /repo's HEAD (lets several seeds be examined at
@@ -71,7 +71,7 @@ def main():
     dst = os.path.join(VERIF, "seeded", seed_id)
     os.makedirs(dst, exist_ok=True)
     for f in os.listdir(seed_dir):
-        if f.endswith((".diff", ".py", ".md")) and os.path.isfile(os.path.join(seed_dir, f)):
+        if f.endswith((".diff", ".py", ".md")) and os.path.isfile(os.path.join(seed_dir, f)) and os.path.abspath(dst) != seed_dir:
             shutil.copy(os.path.join(seed_dir, f), os.path.join(dst, f))
     old = {}
     mp = os.path.join(dst, "meta.json")
